@@ -142,3 +142,26 @@ Proof. exact raw_write_overflow_refuted. Qed.
 Theorem C06_frame_bundle_refuted :
   exists b rest, is_bundle b = true /\ ring_length b = zlen b /\ ring_length (b ++ rest) <> zlen b.
 Proof. exact frame_bundle_refuted. Qed.
+
+(* ---- instantiation with the OSC framing function -------------------------
+   The abstract [frame] above is instantiated with the model of
+   rtosc_message_ring_length (Osc/OscModel.v, the function C01/C07 verify and
+   tie to the code): [frame_ok] holds for it on every well-formed OSC message
+   (C01_length_roundtrip), and the two-segment call the reader makes equals
+   its value on the concatenated view. *)
+From RtoscV Require Ring.RingOsc.
+
+Theorem C06_frame_ok_osc : frame_ok RingOsc.osc_frame RingOsc.osc_wf.
+Proof. exact RingOsc.osc_frame_ok. Qed.
+
+Theorem C06_frame_is_ring_length : forall s0 s1,
+  RingOsc.osc_frame (s0 ++ s1) =
+  match OscModel.message_ring_length (RingOsc.ring2 s0 s1) with OscModel.Ok L => L | _ => 0 end.
+Proof. exact RingOsc.osc_frame_is_ring_length. Qed.
+
+(* FIFO for real OSC messages: no abstract hypothesis left *)
+Theorem C06_fifo_osc : forall N MM, 0 < N ->
+  forall ws rs sched, script_ok RingOsc.osc_wf ws ->
+  let s := reach N MM RingOsc.osc_frame ws rs sched in
+  nreads (out s) = firstn (length (nreads (out s))) (accs_of (out s)).
+Proof. exact (fun N MM HN => top_fifo N MM RingOsc.osc_frame RingOsc.osc_wf HN RingOsc.osc_frame_ok). Qed.
